@@ -2,6 +2,8 @@
   Helper lemmas for C12 (HNSW).  Property theorems are in Properties/C12.lean.
 -/
 import Comet.Vector.HNSW
+import Mathlib.Data.List.Perm.Subperm
+import Mathlib.Data.List.Nodup
 namespace Comet.HNSW
 
 /-! ### the toy instance used by witnesses and non-vacuity examples:
@@ -104,3 +106,67 @@ theorem dfs_spec (succ : Id → List Id) (e : Id) :
         · exact h4 x (List.mem_append.2 (Or.inr hx))
 
 end Comet.HNSW
+
+/-! ### finite maps -/
+
+namespace Comet.HNSW.IdMap
+variable {α : Type}
+
+theorem get?_eq (m : IdMap α) (i : Id) : m.get? i = (m.arr[i]?).getD none := by
+  simp [get?, Array.getD_eq_getD_getElem?]
+
+@[simp] theorem get?_empty (i : Id) : (empty : IdMap α).get? i = none := by
+  simp [get?_eq, empty]
+
+theorem get?_set (m : IdMap α) (i j : Id) (a : α) :
+    (m.set i a).get? j = if i = j then some a else m.get? j := by
+  by_cases h : i < m.arr.size
+  · simp only [set, h, if_true, get?_eq, Array.getElem?_setIfInBounds]
+    split <;> simp
+  · simp only [set, h, if_false, get?_eq]
+    rw [Array.getElem?_push]
+    simp only [Array.size_append, Array.size_replicate]
+    have h' : m.arr.size ≤ i := Nat.le_of_not_lt h
+    have hs : m.arr.size + (i - m.arr.size) = i := Nat.add_sub_cancel' h'
+    rw [hs]
+    by_cases hij : i = j
+    · subst hij; simp
+    · have : ¬ j = i := fun h => hij h.symm
+      simp only [this, if_false, hij]
+      rw [Array.getElem?_append]
+      split
+      · rfl
+      · next h2 =>
+        have hj : m.arr.size ≤ j := by omega
+        rw [Array.getElem?_replicate]
+        split <;> simp [Array.getElem?_eq_none hj]
+
+theorem get?_erase (m : IdMap α) (i j : Id) :
+    (m.erase i).get? j = if i = j then none else m.get? j := by
+  simp only [erase, get?_eq, Array.getElem?_setIfInBounds]
+  split
+  · split <;> simp
+  · rfl
+
+theorem lt_bound_of_get? {m : IdMap α} {i : Id} {a : α} (h : m.get? i = some a) : i < m.bound := by
+  rw [get?_eq] at h
+  unfold bound
+  by_cases hlt : i < m.arr.size
+  · exact hlt
+  · have : m.arr.size ≤ i := Nat.le_of_not_lt hlt
+    simp [Array.getElem?_eq_none this] at h
+
+theorem mem_keys {m : IdMap α} {i : Id} : i ∈ m.keys ↔ m.contains i = true := by
+  simp only [keys, List.mem_filter, List.mem_range, and_iff_right_iff_imp]
+  intro h
+  simp only [contains, Option.isSome_iff_exists] at h
+  obtain ⟨a, ha⟩ := h
+  exact lt_bound_of_get? ha
+
+theorem contains_iff {m : IdMap α} {i : Id} : m.contains i = true ↔ ∃ a, m.get? i = some a := by
+  simp [contains, Option.isSome_iff_exists]
+
+theorem keys_nodup (m : IdMap α) : m.keys.Nodup :=
+  (List.nodup_range).sublist List.filter_sublist
+
+end Comet.HNSW.IdMap
